@@ -538,7 +538,7 @@ pub fn translate(repo: &Path, out: &mut Out) {
             mmethods: vec![("write_to_env_dir", "(gen_write_to_env_dir {r} {0})")],
             display: vec![],
         };
-        let mut g = String::from("From LV Require Import Base FS LayerEnv LayerShared ImpPrims.\nOpen Scope N_scope.\n\n");
+        let mut g = String::from("From LV Require Import Base FS LayerEnv LayerShared ImpPrims ImpFacts ImpReader.\nOpen Scope N_scope.\n\n");
         if let Some(f) = find_impl_fn(&file, "LayerEnvDelta", None, "write_to_env_dir") {
             let mut tr = crate::imp::Tr::new(&cfg);
             let term = tr.mstmts(&f.block.stmts);
@@ -558,6 +558,42 @@ pub fn translate(repo: &Path, out: &mut Out) {
             let _ = writeln!(g, "(* LayerEnv::write_to_layer_dir; the fields are the deltas' entry lists, self.process in map order *)\nDefinition gen_write_to_layer_dir (self_all self_build self_launch : list ((beh * bytes) * bytes)) (self_process : list (bytes * list ((beh * bytes) * bytes))) (layer_dir : path) : M unit :=\n{}.", crate::imp::indent(&term, 2));
         } else {
             out.miss("layer_env.rs: fn write_to_layer_dir");
+        }
+
+        // ---- LayerEnvDelta::read_from_env_dir: a loop that mutates a local and can fail (imp.rs, `mst`)
+        {
+            let rcfg = crate::imp::Config {
+                methods: vec![
+                    ("as_ref", "{r}"),
+                    ("path", "(path ++ [{r}])"),
+                    ("is_dir", "(is_dir {r} st_)"),
+                    ("file_stem", "(file_stem_of {r})"),
+                    ("extension", "(extension_of {r})"),
+                    ("to_str", "(Some {r})"),
+                    ("to_os_string", "{r}"),
+                    ("clone", "{r}"),
+                ],
+                mutators: vec![("insert", "(dinsert {0} {1} {2} {r})")],
+                state_calls: vec![],
+                calls: vec![("Self::new", "delta_empty"), ("OsString::from_vec", "{0}"), ("Some", "(Some {0})")],
+                variants: vec![("Override", "Override"), ("Default", "Default"), ("Append", "Append"), ("Prepend", "Prepend"), ("Delimiter", "Delim")],
+                eq: "beq",
+                take_default: "(@nil N)",
+                mcalls: vec![("fs::read_dir", "(names_of {0})"), ("fs::read", "(read_bytes {0})")],
+                mmethods: vec![],
+                display: vec![],
+            };
+            if let Some(f) = find_impl_fn(&file, "LayerEnvDelta", None, "read_from_env_dir") {
+                let mut tr = crate::imp::Tr::new(&rcfg);
+                let mut scope: Vec<String> = vec![];
+                let term = tr.mst(&f.block.stmts, &mut scope, &[], None);
+                for m in &tr.missing {
+                    out.miss(format!("layer_env.rs: read_from_env_dir: {m}"));
+                }
+                let _ = writeln!(g, "(* LayerEnvDelta::read_from_env_dir *)\nDefinition gen_read_from_env_dir (path : path) : M delta :=\n{}.", crate::imp::indent(&term, 2));
+            } else {
+                out.miss("layer_env.rs: fn read_from_env_dir");
+            }
         }
         out.coq("GenLayerEnvImp.v").push_str(&g);
     }
